@@ -312,6 +312,10 @@ class Runner:
                 data = b''
             lgtxt = open(os.path.join(t.wdir, 'w%d.log' % w), 'rb').read().decode('utf-8', 'replace')
             log('  worker %d exited %d: %s' % (w, rc, fail_summary(lgtxt[-20000:])))
+            if rc == 98 and not self.is_timeout_violation(t):
+                self.inconclusive.append({'target': t.name, 'what': 'worker %d: a case exceeded the %ds CPU budget; the rest of that worker\'s cases were not run (not a violation for this property)' % (w, t.budget),
+                                          'input_sha1': __import__('hashlib').sha1(data).hexdigest()})
+                continue
             if self.handle_candidate(t, data, 'generation worker %d' % w):
                 continue
             # the single input does not reproduce: does the whole worker run?
